@@ -99,7 +99,10 @@ def check_ownership(run, db):
             probs.append('%s clears in_use_' % strip_ns(f.name))
     for f, how in others:
         probs.append('%s writes in_use_ in an unlisted way: %s' % (strip_ns(f.name), how))
-    if not writers_true or not writers_false:
+    if writers_true and not writers_false:
+        run.violation('R-TS14.own', inst, fns[0].loc, 'in this configuration no function ever clears in_use_ (the only reset sits inside an assertion macro that is compiled out, or was removed): '
+                      'a stack that is given back stays marked in use and is never reused', site={'function': 'temporary_stack_list_node::in_use_', 'role': 'the flag is cleared when a stack is given back'})
+    elif not writers_true or not writers_false:
         run.broke('writers of in_use_ not found [%s]' % db.config)
     elif probs:
         run.violation('R-TS14.own', inst, fns[0].loc, '; '.join(probs), site={'function': 'temporary_stack_list_node::in_use_', 'role': 'who may change ownership'})
